@@ -69,6 +69,12 @@ pub fn s_num() -> Vec<Value> {
         "-1e1000", "00012", "1e-400", "0.0000001", " 1 ", "\n1\t", "\u{a0}1\u{a0}", "1 ", " 1", "１２", "١٢",
         "Infinityx", " Infinity ", "-Infinity1", "1e+3x", ".e1", "1.e1", "-.", "0.1", "1.0", "1.50", "010",
         "9007199254740993", "9223372036854775808", "1e21", "true", "null", "[object Object]", "a", "abc",
+        // radix literals whose value needs rounding (beyond 2^53, 2^64 and 2^128)
+        "0x20000000000001", "0x20000000000003", "0xffffffffffffffff", "0x10000000000000801", "0x10000000000000800", "0x1fffffffffffff8",
+        "0x100000000000000000000000000000801", "0x1000000000000000000000000000008000000000000000001", "0o2000000000000000004001",
+        "0x100000000000008000000000000000000001", "0x10000000000000800000000001",
+        "0b100000000000000000000000000000000000000000000000000001", "0b111111111111111111111111111111111111111111111111111111",
+        "9007199254740993.5", "0.1000000000000000055511151231257827", "123456789012345678901234567890", "4.35", "1.0000000000000002",
     ];
     t.iter().map(|s| Value::String(s.to_string())).collect()
 }
